@@ -124,6 +124,11 @@ func (cc *Session) IsAllowConnect() bool {
 	if err != nil {
 		log.Warn("[server] Session parse host error: %v", err)
 	}
+	// a scoped IPv6 remote address ("fe80::1%eth0") carries a zone that net.ParseIP rejects;
+	// the allow-list has no zones, so the address itself is what has to be matched
+	if i := strings.IndexByte(clientHost, '%'); i >= 0 {
+		clientHost = clientHost[:i]
+	}
 	clientIP := net.ParseIP(clientHost)
 
 	return ns.IsClientIPAllowed(clientIP)
